@@ -179,13 +179,23 @@ def extract(ctx):
 
     # --- use of the level inside toms748_scan
     tnames, _, tkw, _ = _params(toms)
-    t_re = _assigned_names(toms, skip=('f', 'f_cached', 'best_bracket'))
     nested = {n.name: n for n in toms.body if isinstance(n, ast.FunctionDef)}
+    t_re = _assigned_names(toms, skip=tuple(nested))
     fl = {}
-    # f(poi, level, limit=0): every returned leaf is  <subscript chain of f_cached(poi)> - <f's second parameter>
-    f = nested.get('f')
+    # the roles of the nested functions are read off their use, not their names:
+    #   objective = first argument of every toms748(...) call; cached evaluator = the one calling hypotest;
+    #   bracket chooser = the one whose result is splatted into a toms748 call
+    tc = _calls(toms, 'toms748')
+    fnames = {c.args[0].id for c in tc if c.args and isinstance(c.args[0], ast.Name)}
+    f = nested.get(next(iter(fnames))) if len(fnames) == 1 else None
+    cached = [n for n in nested.values() if _calls(n, 'hypotest')]
+    cached_name = cached[0].name if len(cached) == 1 else None
+    bnames = {a.value.func.id for c in tc for a in c.args if isinstance(a, ast.Starred) and isinstance(a.value, ast.Call)
+              and isinstance(a.value.func, ast.Name)}
+    bb = nested.get(next(iter(bnames))) if len(bnames) == 1 else None
+    # objective(poi, level, limit=0): every returned leaf is  <subscript chain of cached(poi)> - <its second parameter>
     ok = False
-    if f is not None and len(f.args.args) >= 2:
+    if f is not None and cached_name is not None and len(f.args.args) >= 2:
         lvl = f.args.args[1].arg
         poi = f.args.args[0].arg
         leaves = []
@@ -204,22 +214,19 @@ def extract(ctx):
         def rooted(e):
             while isinstance(e, ast.Subscript):
                 e = e.value
-            return isinstance(e, ast.Call) and isinstance(e.func, ast.Name) and e.func.id == 'f_cached' and len(e.args) == 1 \
+            return isinstance(e, ast.Call) and isinstance(e.func, ast.Name) and e.func.id == cached_name and len(e.args) == 1 \
                 and isinstance(e.args[0], ast.Name) and e.args[0].id == poi
         ok = bool(leaves) and all(isinstance(e, ast.BinOp) and isinstance(e.op, ast.Sub) and rooted(e.left)
                                   and isinstance(e.right, ast.Name) and e.right.id == lvl for e in leaves) \
             and lvl not in _assigned_names(f)
     fl['toms_f_minus_level'] = ok
-    # toms748(f, a, b, args=(level, idx), ...)
-    tc = _calls(toms, 'toms748')
-    ok = len(tc) >= 2
+    # toms748(objective, a, b, args=(level, idx), ...)
+    ok = len(tc) >= 2 and f is not None
     for c in tc:
         a = facts.kw(c, 'args')
-        ok = ok and bool(c.args) and isinstance(c.args[0], ast.Name) and c.args[0].id == 'f' and isinstance(a, ast.Tuple) \
-            and len(a.elts) == 2 and isinstance(a.elts[0], ast.Name) and a.elts[0].id == 'level'
+        ok = ok and isinstance(a, ast.Tuple) and len(a.elts) == 2 and isinstance(a.elts[0], ast.Name) and a.elts[0].id == 'level'
     fl['toms_args_level'] = ok
-    # best_bracket: values minus the enclosing level
-    bb = nested.get('best_bracket')
+    # bracket chooser: values minus the enclosing level
     ok = False
     if bb is not None and 'level' not in [x.arg for x in bb.args.args] and 'level' not in _assigned_names(bb):
         subs = [n for n in ast.walk(bb) if isinstance(n, ast.BinOp) and isinstance(n.op, ast.Sub) and isinstance(n.left, ast.Subscript)]
@@ -262,42 +269,6 @@ def extract(ctx):
     return dict(grid_bind=gb, toms_bind=tb, deprecated_alias_bind=db, star_kwargs=dict(grid=gstar, toms=tstar, alias=dstar),
                 level_defaults=dict(grid=str(gd), toms=str(td), upper_limit=str(ud)), level_use=fl)
 
-
-
-def recheck_assumptions(ctx):
-    """core.parse_assumptions misses axioms that Coq prints as `Name` + newline + `  : type`; re-read them here."""
-    import re
-    props = os.path.join(core.COQ, 'props', ctx.pid + '.v')
-    with core.Lock():
-        rc, out = core.coqc(props, cwd=core.COQ)
-    if rc != 0:
-        return False, 'coqc props/%s.v failed: %s' % (ctx.pid, out[-1500:])
-    printed = re.findall(r'Print Assumptions\s+([\w\'\.]+)\s*\.', open(props).read())
-    blocks, cur = [], None
-    for line in out.split('\n'):
-        if line.startswith('Closed under the global context'):
-            blocks.append([])
-            cur = None
-        elif line.startswith('Axioms:'):
-            cur = []
-            blocks.append(cur)
-        elif cur is not None and line and not line[0].isspace():
-            m = re.match(r'^([A-Za-z_][\w\.\']*)\s*(:.*)?$', line)
-            if m:
-                cur.append(m.group(1))
-            else:
-                cur = None
-    if len(blocks) != len(printed):
-        return False, 'could not match Print Assumptions output (%d blocks for %d commands)' % (len(blocks), len(printed))
-    for name, bl in zip(printed, blocks):
-        for a in bl:
-            if not any(a == x or a.endswith('.' + x) or x.endswith('.' + a) or a.startswith(x + '.') for x in core.ALLOWED_AXIOMS):
-                return False, 'theorem %s depends on unexpected axiom %s' % (name, a)
-    ctx.coverage['theorems'] = dict(zip(printed, blocks))
-    axs = sorted({a for bl in blocks for a in bl})
-    ctx.trusted[:] = [t for t in ctx.trusted if not t.startswith('all property theorems closed') and not t.startswith('standard-library axioms used')]
-    ctx.trusted.append('standard-library axioms used (Print Assumptions): ' + (', '.join(axs) or 'none'))
-    return True, ''
 
 
 # ---------------------------------------------------------------------------------------
@@ -765,8 +736,6 @@ def run(ctx):
         nofacts = True
     if tie is None:
         ok, txt = core.prove(ctx)
-        if ok:
-            ok, txt = recheck_assumptions(ctx)
         if not ok:
             tie = 'proof obligations of props/C09.v no longer check: ' + txt[-1500:]
             # the model file itself must be available for the correspondence even when a tie lemma fails
@@ -847,9 +816,14 @@ def run(ctx):
     try:
         mres = core.coq_eval(ctx, 'ul', HEADER_NOFACTS if nofacts else HEADER, exprs, shard=12)
         for i, s in zip(idx, mres):
-            why = compare_model(cases[i], results[i], decode(s))
+            mo = decode(s)
+            why = compare_model(cases[i], results[i], mo)
             if why:
                 disagree.append((i, why))
+            elif cases[i]['mode'] == 'auto':
+                # diagnostic only (internal observable): the six brackets the model hands to toms748 against the recorded ones
+                rec = [[core.frac(t['a']), core.frac(t['b'])] for t in results[i]['toms']]
+                stats['bracket_mismatches'] = stats.get('bracket_mismatches', 0) + (mo['brackets'] != rec)
     except core.CoqEvalError as e:
         tie = tie or ('model evaluation failed: %s' % str(e)[-800:])
     bracket_diag = None
